@@ -42,6 +42,10 @@ def generate(rng, tier='quick', kind=None, mode='history', **kw):
     cfg['aperture'] = {'min_size': mn, 'max_size': mx, 'min_load': lo,
                        'max_load': round(lo * rng.choice([2.5, 3, 4]), 3),
                        'jitter_min_sec': rng.choice([0, 0, 0, 1]), 'jitter_max_sec': 5}
+  if init and rng.random() < 0.12:
+    # the provider's initial list names a member twice
+    init = sorted(init + [rng.choice(init)])
+    cfg['initial'] = init
   ops = []
   t = 0.0
   if mode == 'steady' and kind == 'aperture':
